@@ -30,14 +30,16 @@ def run(name):
     subprocess.run(["rsync", "-a", "--exclude", "target", "--exclude", ".git", "/repo/", scratch + "/"], check=True)
     p = subprocess.run(["patch", "-p1", "-s", "-i", os.path.join(d, "patch.diff")], cwd=scratch)
     meta["patch_applies"] = p.returncode == 0
-    res = {}
+    # BENIGN_PROPS=C16,C06 re-runs only those checks and keeps the recorded results of the others
+    props = [x for x in os.environ.get("BENIGN_PROPS", "").split(",") if x] or PROPS
+    res = dict(meta.get("checks") or {}) if props != PROPS else {}
     if p.returncode == 0:
         env = dict(os.environ, CARGO_TARGET_DIR=os.path.join(scratch, "target"), CARGO_NET_OFFLINE="true")
         t = subprocess.run("cargo test --offline 2>&1 | grep -E '^test result|FAILED|^error' | head", shell=True, cwd=scratch, env=env, stdout=subprocess.PIPE, text=True)
         meta["suite_passes"] = "FAILED" not in t.stdout and "error" not in t.stdout and t.stdout.count("test result: ok") >= 3
         shutil.rmtree(os.path.join(scratch, "target"), ignore_errors=True)
         envc = dict(os.environ, VERIF_REPO=scratch)
-        for pid in PROPS:
+        for pid in props:
             t0 = time.time()
             r = subprocess.run(["./check", pid, "quick"], cwd=VERIF, env=envc, stdout=subprocess.PIPE, stderr=subprocess.STDOUT, text=True)
             info = {"exit": r.returncode, "s": round(time.time() - t0)}
